@@ -199,6 +199,33 @@ func zzC11_udp_nested() {
 	}
 }
 
+// a burst of datagrams longer than the receive queue arrives faster than the handlers drain it (the socket
+// reader calls Process back to back): handlers that return at once see the messages in arrival order, each once
+func zzC11_udp_burst() {
+	s := zzNewSession()
+	var order []byte
+	cc := zzNewConn(s, zzConnCfg{midSeed: 1000, handler: func(w *responsewriter.ResponseWriter[*Conn], r *pool.Message) {
+		if t := r.Token(); len(t) == 2 && t[0] == 0xC0 {
+			order = append(order, t[1])
+		}
+	}})
+	symSetNow(time.Unix(0, 1<<41))
+	n := symParam("burst", 5) // the receive queue holds 2
+	for i := 0; i < n; i++ {
+		_ = cc.Process(nil, zzDatagram(message.NonConfirmable, 100+int32(i), codes.POST, message.Token{0xC0, byte(i)}, nil))
+	}
+	symIdle()
+	symCover("burst-delivered")
+	symAssert(len(order) == n, "every message of the burst is dispatched exactly once")
+	inOrder := len(order) == n
+	for i := 0; i < len(order) && i < n; i++ {
+		if order[i] != byte(i) {
+			inOrder = false
+		}
+	}
+	symAssert(inOrder, "while handlers return without blocking, messages are processed in arrival order, also when the burst exceeds the receive queue")
+}
+
 func zzC11_udp_selftest() {
 	s := zzNewSession()
 	handled := 0
